@@ -13,8 +13,8 @@ def main():
     out.append("#### Changes seeded by independent sub-agents (each given only the property text and a scratch worktree)\n")
     out.append("Every change below was confirmed by me in a scratch worktree: it applies to HEAD, the 104 baseline tests pass with it, "
                "its demonstration fails with it and passes without it. `detected by` lists the checks run against it (quick tier, `VERIF_REPO` = scratch worktree with the patch).\n")
-    out.append("| change | what it does | needs, to manifest | detected by | first signature |")
-    out.append("|---|---|---|---|---|")
+    out.append("| change | what it does | needs, to manifest | detected by | first signature | harness frozen before the change was seen |")
+    out.append("|---|---|---|---|---|---|")
     sd = os.path.join(VERIF, "seeded")
     missed = []
     for n in sorted(os.listdir(sd)):
@@ -40,7 +40,11 @@ def main():
             cell = "(not run yet)"
         if m.get("undetected_reason") and not hits:
             cell = "not detected — " + m["undetected_reason"]
-        out.append("| %s | %s | %s | %s | `%s` |" % (n, short(m.get("breaks"), 170).replace("|", "/"), short(m.get("needs_to_manifest"), 150).replace("|", "/"), cell, short(sig, 110).replace("|", "/")))
+        fz = m.get("frozen_harness_before_round2")
+        fzc = "" if fz is None else ("detected" if fz.get("detected_by_own_property_check") else "missed (exit %s)" % fz.get("exit"))
+        if fz is None and (n.endswith("-a") or n.endswith("-b")):
+            fzc = m.get("first_run_note", "detected on first run")
+        out.append("| %s | %s | %s | %s | `%s` | %s |" % (n, short(m.get("breaks"), 170).replace("|", "/"), short(m.get("needs_to_manifest"), 150).replace("|", "/"), cell, short(sig, 110).replace("|", "/"), fzc))
     out.append("")
     rp = os.path.join(VERIF, "selftest", "results-mutants.json")
     if os.path.exists(rp):
